@@ -13,7 +13,7 @@ Decides (necessary conditions, from the MIR of /repo's current tree):
 import re
 
 from engine.expr import Ex, norm, show, walk, alts
-from engine.intervals import Intervals, dominating_facts, ty_range
+from engine.intervals import Intervals, dominating_facts, ty_range, argtys_of
 from engine.mir import AnchorLost, callee_matches
 from engine.panics import const_return_summaries, leaf_sig
 from engine.query import aggregates, field_assignments, mut_borrows_of_field, variant_index, calls_matching, where
@@ -410,7 +410,7 @@ def rule_alloc(facts, rep, reach, summaries):
             key = "%s|%s|%s" % (f.path, nm, leaf_sig(e))
             w = where(f, t["span"])
             fs = [x for x in dominating_facts(f, ex, bi) if x[0] != "truth"]
-            iv = Intervals(summaries, fs)
+            iv = Intervals(summaries, fs, argtys_of(f))
             bad = []
             for a in alts(e):
                 r = iv.range_of(a, "usize")
